@@ -1,4 +1,6 @@
 import H3.Lemmas.Iso
+import H3.Lemmas.IsoLift
+import H3.Lemmas.IsoPolled
 import H3.Props.C03
 /-! # C07 — faults confined to one request never harm the connection or other requests
 
@@ -14,7 +16,11 @@ connection-level error — the histories of the property: any subset of the stre
 stream-scoped faults (RESET, STOP_SENDING, malformed message, oversized section, FIN before
 HEADERS) at any point; excluded are only connection-level protocol violations (bad frame sequence,
 bad frame encoding, QPACK failure), which are allowed — required — to close the connection.
-`view j x`: what a run looks like from stream `j` — its final state and what its application saw. -/
+`view j x`: what a run looks like from stream `j` — its final state and what its application saw.
+A *valid message* (healthy stream) is a statement about the wire bytes through the reference automaton
+of C02 (`msgToks`); `follows` = the application makes the calls of the documented receive pattern,
+each polled again while it answers `Pending`; `digest` = its answers with `Pending` left out
+(`H3/Lemmas/IsoLift.lean`, `IsoPolled*.lean`). -/
 namespace H3.Props.C07
 open H3.Iso H3.Gen.Consts
 open H3.ReqRecv (Role Res St FSt Env fsSrc fsFuel first)
@@ -381,41 +387,22 @@ theorem C07_connection_stays_open (cfg : Cfg) (hist : List HEv) (hs : StreamScop
 section Healthy
 open H3.ReqRecv H3.Props.C03
 
-/-- **C07 composed with C03** (`_partial`: two gaps against the full statement, both inherited from
-    C03 — see below).  A healthy stream `j` of such a history — its own events are: the peer delivers
-    `ps` (any chunking), then the application runs the documented receive pattern (head, then the
-    body loop and the trailers) — where the bytes delivered are, for the frame layer, a frame
-    sequence `toks` ended by FIN that is a valid message `U* H (U|D)* (H U*)?` within the size limit:
-    stream `j`'s application is given the head, then as body exactly the concatenation of the DATA
-    payloads of ITS stream, in order, each byte once, then the end of the body, then the trailers
-    iff present; h3 resets nothing on it; the cell is empty and `close` was never called — whatever
-    happened on the other streams, in whatever interleaving with them.
-
-    Full statement: the same for EVERY order of `j`'s own deliveries and polls, with no hypothesis
-    about the frame layer.  Gaps: (1) `FrameSim` — that the `FrameStream` model hands the request
-    layer the frames of the bytes — is the hypothesis of `C03_lifted_to_chunks` (C02's subject; an
-    open proof obligation there, established per script by kernel evaluation, as in the example
-    below); (2) within stream `j` itself the deliveries precede the polls (C03's `documented`
-    pattern has the whole input in the source); polls of `j` that come before its bytes (`Pending`,
-    then resumed) are covered by `C07_neighbours_unaffected` (`j` sees what it would see alone)
-    and by the differential run, not by this theorem.  The interleaving with all OTHER streams is
-    unrestricted. -/
-theorem C07_healthy_stream_delivers_partial (cfg : Cfg) (hist : List HEv) (hs : StreamScoped cfg hist) (j : Nat)
+/-- From the outcome of the documented pattern over stream `j`'s own transport script (a statement
+    about `ReqRecv.documented`, C03's subject) to what `j`'s application observes inside the product,
+    under arbitrary interleaving with all other streams. -/
+theorem healthy_of_outcome (cfg : Cfg) (hist : List HEv) (hs : StreamScoped cfg hist) (j : Nat)
     (ps : List Peer) (fuel : Nat)
     (hj : proj j hist = ps.map .peer ++ [.call .head, .call (.body fuel)])
-    {R : FSt → TS → Prop} (sim : FrameSim fsSrc tokSrc R) (toks : List Tok)
-    (hR : R ({}, fsScript ps) (TS.ofToks toks .fin))
-    (pre mid post : List Tok) (h : ReqRecv.Bytes) (tr : Option ReqRecv.Bytes)
-    (hpre : ∀ t ∈ pre, isU t = true) (hmid : ∀ t ∈ mid, isUD t = true) (hpost : ∀ t ∈ post, isU t = true)
-    (htoks : toks = pre ++ .headers h :: (mid ++ (match tr with | none => [] | some t => .headers t :: post)))
-    (hwf : ∀ tok ∈ toks, TokWF tok ∧ HdrOk cfg.hdr.base tok) (hfuel : answers toks .fin + 2 ≤ fuel)
+    (h body : ReqRecv.Bytes) (tr : Option ReqRecv.Bytes)
+    (hdel : observe (documented cfg.role fsSrc cfg.hdr.base fuel { src := ({}, fsScript ps) }) =
+      { calls := [.head h, .body body, .bodyEnd, trObs tr], connError := none, streamReset := none })
     (hh : cfg.hdr.head h ≠ .tooBig) (htr : ∀ t, tr = some t → cfg.hdr.trailer t ≠ .tooBig) :
     ∃ rs : List Res,
       obsOf j (run cfg {} hist).2 =
         List.replicate ps.length .quiet ++
           [.ans (.res (.head h)),
            .body rs (some (.res (trRes tr)))] ∧
-      bodyBytes rs = payloads mid ∧ rs.getLast? = some .end_ ∧
+      bodyBytes rs = body ∧ rs.getLast? = some .end_ ∧
       ((run cfg {} hist).1.get j).rx.env.rst = none ∧
       (run cfg {} hist).1.cell = none ∧ (run cfg {} hist).1.closed = [] := by
   have hq := quiet_of_streamScoped cfg hist hs
@@ -423,16 +410,7 @@ theorem C07_healthy_stream_delivers_partial (cfg : Cfg) (hist : List HEv) (hs : 
   have hv := (hview j).1
   have hg : ({} : Conn).get j = ({} : Req) := rfl
   rw [hg] at hv
-  -- C03: the documented pattern over the chunks is the one over the frames, which delivers
-  have hlift := (C03_lifted_to_chunks fsSrc R sim cfg.role cfg.hdr.base ({}, fsScript ps) toks .fin fuel hR hwf hfuel).1
-  have hdel := C03_valid_message_delivered cfg.role cfg.hdr.base pre mid post h tr fuel hpre hmid hpost toks htoks
-    hwf hfuel
-  rw [← hlift] at hdel
-  have hdel' : observe (documented cfg.role fsSrc cfg.hdr.base fuel { src := ({}, fsScript ps) }) =
-      { calls := [.head h, .body (payloads mid), .bodyEnd, trObs tr]
-        connError := none, streamReset := none } := by
-    cases tr <;> exact hdel
-  obtain ⟨t1, t2, t3, t4, t5, t6⟩ := observe_delivered _ h (payloads mid) tr hdel'
+  obtain ⟨t1, t2, t3, t4, t5, t6⟩ := observe_delivered _ h body tr hdel
   -- the product's run of stream j alone is that trace
   have hdoc := run_documented cfg ps fuel h t1 hh (by
     intro t ht
@@ -452,6 +430,286 @@ theorem C07_healthy_stream_delivers_partial (cfg : Cfg) (hist : List HEv) (hs : 
   · have : ((run cfg {} hist).1.get j) = _ := hv.1
     rw [this, d3]
     exact t6
+
+/-- **C07 composed with C03, the frame-layer hypothesis gone.**  A healthy stream `j` of ANY
+    history in which no stream is told a connection-level error.  Its own transport events are: the
+    bytes `w = cs.flatten` of a valid message cut into non-empty chunks `cs` in ANY way, then FIN;
+    its application then runs the documented receive pattern (head, then the body loop and the
+    trailers).  "Valid message" is a statement about the wire bytes alone, through the reference
+    automaton of C02: over `w` it ends on a frame boundary and emits HEADERS `h`, DATA frames with
+    payloads `ds` (any number, any lengths, zero included), HEADERS `t` iff there are trailers
+    (`msgToks`; frames of unknown type anywhere leave no token).  Then — whatever happens on the
+    other streams (resets, STOP_SENDING, malformed or oversized messages, abandoned streams), in
+    whatever interleaving with them and with the driver's polls — `j`'s application is given: the
+    head `h`; as body exactly `ds.flatten`, the concatenation of the DATA payloads of ITS stream,
+    in order, each byte once; then the end of the body; then the trailers iff present; h3 resets
+    nothing on it; the cell is empty and `close` was never called.
+
+    Hypotheses that remain (none about the frame layer: `FrameSim` is discharged by
+    `C03_frame_layer_simulation`/`lift_exists` for every script): chunks are non-empty (`ScriptOK`,
+    a QUIC read never returns zero bytes); no DATA frame announces `usize::MAX` bytes (`NoRaw`; a
+    varint cannot); the header oracle accepts the two blocks within the limit (as C03's `HdrOk`: in
+    either position); the loop bound of the `body` call is at least the model's own `fsFuel`.
+    Still inherited from C03's `documented`: within stream `j` itself the deliveries precede the
+    polls — `C07_healthy_stream_delivers_polled` removes that. -/
+theorem C07_healthy_stream_delivers (cfg : Cfg) (hist : List HEv) (hs : StreamScoped cfg hist) (j : Nat)
+    (cs : List ReqRecv.Bytes) (fuel : Nat) (h : ReqRecv.Bytes) (ds : List ReqRecv.Bytes) (tr : Option ReqRecv.Bytes)
+    (hj : proj j hist = (cs.map Peer.chunk ++ [Peer.fin]).map StreamEv.peer ++ [.call .head, .call (.body fuel)])
+    (hne : ∀ b ∈ cs, b ≠ [])
+    (hmsg : H3.FS.run H3.FS.frameDec (.hdr []) cs.flatten = (.hdr [], msgToks h ds tr))
+    (hlen : ∀ d ∈ ds, d.length < H3.FS.USIZE_MAX)
+    (hH : ∀ b, b = h ∨ tr = some b → cfg.hdr.head b = .ok ∧ cfg.hdr.trailer b = .ok)
+    (hfuel : fsFuel ({}, cs.map H3.FS.Ev.chunk ++ [H3.FS.Ev.fin]) ≤ fuel) :
+    ∃ rs : List Res,
+      obsOf j (run cfg {} hist).2 =
+        List.replicate (cs.length + 1) .quiet ++
+          [.ans (.res (.head h)),
+           .body rs (some (.res (trRes tr)))] ∧
+      bodyBytes rs = ds.flatten ∧ rs.getLast? = some .end_ ∧
+      ((run cfg {} hist).1.get j).rx.env.rst = none ∧
+      (run cfg {} hist).1.cell = none ∧ (run cfg {} hist).1.closed = [] := by
+  have hb : FS.evBytes (cs.map H3.FS.Ev.chunk) = cs.flatten := evBytes_chunks cs
+  have hacc := chunked_outcome_fin_fuel cfg.role cfg.hdr.base (cs.map H3.FS.Ev.chunk) [] fuel
+    (onlyChunks_map cs) (scriptOK_chunks_fin cs hne)
+    (by rw [hb]; exact noRaw_of_msgToks _ _ h ds tr hmsg hlen)
+    (by
+      intro b hbm
+      rw [hb, hmsg] at hbm
+      obtain ⟨h1, h2⟩ := hH b (headers_mem_msgToks h ds tr b hbm)
+      simp [Hdr.base, h1, h2, HClass.base])
+    (by rw [hb, hmsg]) hfuel
+  rw [hb, hmsg, kindsOf_msgToks, spec_msgKinds] at hacc
+  simp only [H3.Spec.ReqSeq.Expect.accepts, List.mem_singleton] at hacc
+  rw [← fsScript_chunks_fin] at hacc
+  have hres := healthy_of_outcome cfg hist hs j (cs.map Peer.chunk ++ [Peer.fin]) fuel hj h ds.flatten tr hacc
+    (by rw [(hH h (Or.inl rfl)).1]; simp)
+    (by intro t ht; rw [(hH t (Or.inr ht)).2]; simp)
+  simpa using hres
+
+/-- **C07 composed with C03** (`_partial`: kept for the record; superseded by
+    `C07_healthy_stream_delivers`, which needs no hypothesis about the frame layer).  A healthy
+    stream `j` of such a history — its own events are: the peer delivers `ps` (any chunking), then
+    the application runs the documented receive pattern (head, then the body loop and the trailers)
+    — where the bytes delivered are, for the frame layer, a frame sequence `toks` ended by FIN that
+    is a valid message `U* H (U|D)* (H U*)?` within the size limit: stream `j`'s application is
+    given the head, then as body exactly the concatenation of the DATA payloads of ITS stream, in
+    order, each byte once, then the end of the body, then the trailers iff present; h3 resets
+    nothing on it; the cell is empty and `close` was never called — whatever happened on the other
+    streams, in whatever interleaving with them.
+
+    Gaps against the full statement: (1) `FrameSim` — that the `FrameStream` model hands the request
+    layer the frames of the bytes — is a hypothesis here (closed in `C07_healthy_stream_delivers`);
+    (2) within stream `j` itself the deliveries precede the polls (closed in
+    `C07_healthy_stream_delivers_polled`). -/
+theorem C07_healthy_stream_delivers_partial (cfg : Cfg) (hist : List HEv) (hs : StreamScoped cfg hist) (j : Nat)
+    (ps : List Peer) (fuel : Nat)
+    (hj : proj j hist = ps.map .peer ++ [.call .head, .call (.body fuel)])
+    {R : FSt → TS → Prop} (sim : FrameSim fsSrc tokSrc R) (toks : List Tok)
+    (hR : R ({}, fsScript ps) (TS.ofToks toks .fin))
+    (pre mid post : List Tok) (h : ReqRecv.Bytes) (tr : Option ReqRecv.Bytes)
+    (hpre : ∀ t ∈ pre, isU t = true) (hmid : ∀ t ∈ mid, isUD t = true) (hpost : ∀ t ∈ post, isU t = true)
+    (htoks : toks = pre ++ .headers h :: (mid ++ (match tr with | none => [] | some t => .headers t :: post)))
+    (hwf : ∀ tok ∈ toks, TokWF tok ∧ HdrOk cfg.hdr.base tok) (hfuel : answers toks .fin + 2 ≤ fuel)
+    (hh : cfg.hdr.head h ≠ .tooBig) (htr : ∀ t, tr = some t → cfg.hdr.trailer t ≠ .tooBig) :
+    ∃ rs : List Res,
+      obsOf j (run cfg {} hist).2 =
+        List.replicate ps.length .quiet ++
+          [.ans (.res (.head h)),
+           .body rs (some (.res (trRes tr)))] ∧
+      bodyBytes rs = payloads mid ∧ rs.getLast? = some .end_ ∧
+      ((run cfg {} hist).1.get j).rx.env.rst = none ∧
+      (run cfg {} hist).1.cell = none ∧ (run cfg {} hist).1.closed = [] := by
+  -- C03: the documented pattern over the chunks is the one over the frames, which delivers
+  have hlift := (C03_lifted_to_chunks fsSrc R sim cfg.role cfg.hdr.base ({}, fsScript ps) toks .fin fuel hR hwf hfuel).1
+  have hdel := C03_valid_message_delivered cfg.role cfg.hdr.base pre mid post h tr fuel hpre hmid hpost toks htoks
+    hwf hfuel
+  rw [← hlift] at hdel
+  have hdel' : observe (documented cfg.role fsSrc cfg.hdr.base fuel { src := ({}, fsScript ps) }) =
+      { calls := [.head h, .body (payloads mid), .bodyEnd, trObs tr]
+        connError := none, streamReset := none } := by
+    cases tr <;> exact hdel
+  exact healthy_of_outcome cfg hist hs j ps fuel hj h (payloads mid) tr hdel' hh htr
+
+/-! #### the stream's own polls interleaved with its own deliveries
+
+The realistic schedule: the application's task is polled, answers `Pending`, more bytes arrive, it
+is polled again.  `follows cfg fuel .head none {} evs` (decidable): every call among the events
+`evs` of the stream is the one the documented pattern makes at that point, given what the
+application has been answered so far — `resolve_request`/`recv_response` polled until it answers,
+then the body task (`recv_data` until it answers something else than data, `recv_trailers` after a
+clean end) polled until it completes, nothing after —, peer events anywhere in between.
+`digest obs`: what the application has been given, the `Pending` answers left out. -/
+
+/-- **C07, a healthy stream under every schedule of its own task** (hypothesis (2) of
+    `C07_healthy_stream_delivers` gone).  A healthy stream `j` of ANY history in which no stream is
+    told a connection-level error: its transport events are the bytes of a valid message cut into
+    non-empty chunks `cs` in any way, then FIN; its application follows the documented receive
+    pattern, every call polled again while it answers `Pending`; deliveries and polls of `j` are
+    interleaved in ANY way (and with every other stream's events, faults and driver polls); the last
+    poll of the body task comes after FIN.  Then, the `Pending` answers left out, `j`'s application
+    has been given: the head `h`, once; by the `recv_data` calls pieces `ps` with
+    `ps.flatten = ds.flatten` — exactly the DATA payloads of ITS stream, in order, each byte once —
+    then the end of the body, once; by `recv_trailers` the trailers iff present; no error; h3 has
+    neither reset nor stopped the stream; the cell is empty, `close` was never called.  This is the
+    digest of the run with all deliveries first (`C07_healthy_stream_delivers`), for every schedule.
+
+    Hypotheses that remain: chunks non-empty; no DATA frame of `usize::MAX` bytes; the oracle accepts
+    the head block as a head and the trailer block as trailers, within the limit (nothing is asked
+    about the blocks in the other position); the loop bound of a `body` poll exceeds the number of
+    frame-layer tokens of the message. -/
+theorem C07_healthy_stream_delivers_polled (cfg : Cfg) (hist : List HEv) (hs : StreamScoped cfg hist) (j : Nat)
+    (cs : List ReqRecv.Bytes) (fuel : Nat) (h : ReqRecv.Bytes) (ds : List ReqRecv.Bytes) (tr : Option ReqRecv.Bytes)
+    (hpeers : peersOf (proj j hist) = cs.map Peer.chunk ++ [Peer.fin])
+    (hfollow : follows cfg fuel .head none {} (proj j hist) = true)
+    (hlast : (proj j hist).getLast? = some (.call (.body fuel)))
+    (hne : ∀ b ∈ cs, b ≠ [])
+    (hmsg : H3.FS.run H3.FS.frameDec (.hdr []) cs.flatten = (.hdr [], msgToks h ds tr))
+    (hlen : ∀ d ∈ ds, d.length < H3.FS.USIZE_MAX)
+    (hh : cfg.hdr.head h = .ok) (hT : ∀ t, tr = some t → cfg.hdr.trailer t = .ok)
+    (hfuel : (msgToks h ds tr).length < fuel) :
+    ∃ ps : List ReqRecv.Bytes, ps.flatten = ds.flatten ∧
+      (digest (obsOf j (run cfg {} hist).2)).heads = [.res (.head h)] ∧
+      (digest (obsOf j (run cfg {} hist).2)).body = ps.map .data ++ [.end_] ∧
+      (digest (obsOf j (run cfg {} hist).2)).trailers = [.res (trRes tr)] ∧
+      ((run cfg {} hist).1.get j).rx.env = {} ∧
+      (run cfg {} hist).1.cell = none ∧ (run cfg {} hist).1.closed = [] := by
+  have hq := quiet_of_streamScoped cfg hist hs
+  obtain ⟨hcell, hclosed, hview⟩ := run_decomposes cfg hist {} rfl rfl hq
+  have hv := (hview j).1
+  have hg : ({} : Conn).get j = ({} : Req) := rfl
+  rw [hg] at hv
+  simp only [view, Prod.mk.injEq] at hv
+  have hw : Wire cs.flatten (msgToks h ds tr) := ⟨hmsg, noRaw_of_msgToks _ _ h ds tr hmsg hlen⟩
+  have hscript : fsScript (peersOf (proj j hist)) = cs.map H3.FS.Ev.chunk ++ [H3.FS.Ev.fin] := by
+    rw [hpeers, fsScript_chunks_fin]
+  obtain ⟨ph', b', _, hr, hgok, hdone⟩ := polled_run hw cfg hh hT fuel hfuel cs hne rfl (proj j hist) .head [] [] {} {}
+    (rinv_init _ h ds tr) rfl (by rw [List.nil_append, hscript]; exact List.prefix_refl _) hfollow
+  have hph : ph' = .done := hdone (by rw [List.nil_append, hscript]; simp) hlast
+  subst hph
+  obtain ⟨h1, ⟨ps, h2, h3⟩, h4⟩ := hgok
+  rw [hv.1, hv.2]
+  exact ⟨ps, h3, h1, h2, h4, hr.2.1, hcell, hclosed⟩
+
+/-- **... and at every point before that**: whatever part of the stream's events has arrived (`cs`
+    is the whole cutting; the events of `j` in `hist` carry a prefix of it, FIN or not), whatever the
+    application's task has been polled so far: it has been given nothing, or the head `h` and pieces
+    `ps` whose concatenation is a PREFIX of the stream's own DATA payloads `ds.flatten`; the end of
+    the body has been reported only with all of them handed over; trailers only after that, and only
+    the stream's own; never an error; nothing reset or stopped on `j`; connection open. -/
+theorem C07_healthy_stream_prefix_polled (cfg : Cfg) (hist : List HEv) (hs : StreamScoped cfg hist) (j : Nat)
+    (cs : List ReqRecv.Bytes) (fuel : Nat) (h : ReqRecv.Bytes) (ds : List ReqRecv.Bytes) (tr : Option ReqRecv.Bytes)
+    (hpeers : fsScript (peersOf (proj j hist)) <+: cs.map H3.FS.Ev.chunk ++ [H3.FS.Ev.fin])
+    (hfollow : follows cfg fuel .head none {} (proj j hist) = true)
+    (hne : ∀ b ∈ cs, b ≠ [])
+    (hmsg : H3.FS.run H3.FS.frameDec (.hdr []) cs.flatten = (.hdr [], msgToks h ds tr))
+    (hlen : ∀ d ∈ ds, d.length < H3.FS.USIZE_MAX)
+    (hh : cfg.hdr.head h = .ok) (hT : ∀ t, tr = some t → cfg.hdr.trailer t = .ok)
+    (hfuel : (msgToks h ds tr).length < fuel) :
+    let g := digest (obsOf j (run cfg {} hist).2)
+    (∃ ps : List ReqRecv.Bytes, ps.flatten <+: ds.flatten ∧
+      ((g.heads = [] ∧ g.body = [] ∧ g.trailers = []) ∨
+       (g.heads = [.res (.head h)] ∧ g.body = ps.map .data ∧ g.trailers = []) ∨
+       (g.heads = [.res (.head h)] ∧ g.body = ps.map .data ++ [.end_] ∧ ps.flatten = ds.flatten ∧
+          (g.trailers = [] ∨ g.trailers = [.res (trRes tr)])))) ∧
+    ((run cfg {} hist).1.get j).rx.env = {} ∧
+    (run cfg {} hist).1.cell = none ∧ (run cfg {} hist).1.closed = [] := by
+  intro g
+  have hq := quiet_of_streamScoped cfg hist hs
+  obtain ⟨hcell, hclosed, hview⟩ := run_decomposes cfg hist {} rfl rfl hq
+  have hv := (hview j).1
+  have hg : ({} : Conn).get j = ({} : Req) := rfl
+  rw [hg] at hv
+  simp only [view, Prod.mk.injEq] at hv
+  have hw : Wire cs.flatten (msgToks h ds tr) := ⟨hmsg, noRaw_of_msgToks _ _ h ds tr hmsg hlen⟩
+  obtain ⟨ph', b', _, hr, hgok, _⟩ := polled_run hw cfg hh hT fuel hfuel cs hne rfl (proj j hist) .head [] [] {} {}
+    (rinv_init _ h ds tr) rfl (by rw [List.nil_append]; exact hpeers) hfollow
+  have hpre := rinv_prefix hw hr
+  have hgd : g = List.foldl Dig.add {} (Req.run cfg none {} (proj j hist)).2.2 := by
+    show digest _ = _
+    rw [hv.2]; rfl
+  rw [hv.1]
+  refine ⟨?_, hr.2.1, hcell, hclosed⟩
+  rw [hgd]
+  cases ph' with
+  | head =>
+    simp only [GOK] at hgok
+    rw [hgok]
+    exact ⟨[], List.nil_prefix, Or.inl ⟨rfl, rfl, rfl⟩⟩
+  | body =>
+    obtain ⟨h1, ⟨ps, h2, h3⟩, h4⟩ := hgok
+    exact ⟨ps, by rw [h3]; exact hpre, Or.inr (Or.inl ⟨h1, h2, h4⟩)⟩
+  | trailers =>
+    obtain ⟨h1, ⟨ps, h2, h3⟩, h4⟩ := hgok
+    exact ⟨ps, by rw [h3]; exact List.prefix_refl _, Or.inr (Or.inr ⟨h1, h2, h3, Or.inl h4⟩)⟩
+  | done =>
+    obtain ⟨h1, ⟨ps, h2, h3⟩, h4⟩ := hgok
+    exact ⟨ps, by rw [h3]; exact List.prefix_refl _, Or.inr (Or.inr ⟨h1, h2, h3, Or.inr h4⟩)⟩
+
+/-- **Neither the cutting nor the schedule of its own task matters.**  Two runs of a healthy stream
+    carrying the same message bytes — in different histories, on different stream ids, with
+    different neighbours and faults, the bytes cut differently, the task polled at different moments
+    (in particular: polled only after everything has arrived, as in `C07_healthy_stream_delivers`,
+    versus polled after every chunk) — give the application the same head, the same body bytes and
+    the same trailers. -/
+theorem C07_healthy_stream_schedule_irrelevant (cfg : Cfg) (hist₁ hist₂ : List HEv)
+    (hs₁ : StreamScoped cfg hist₁) (hs₂ : StreamScoped cfg hist₂) (j₁ j₂ : Nat)
+    (cs₁ cs₂ : List ReqRecv.Bytes) (fuel₁ fuel₂ : Nat) (h : ReqRecv.Bytes) (ds : List ReqRecv.Bytes) (tr : Option ReqRecv.Bytes)
+    (hbytes : cs₂.flatten = cs₁.flatten)
+    (hp₁ : peersOf (proj j₁ hist₁) = cs₁.map Peer.chunk ++ [Peer.fin])
+    (hp₂ : peersOf (proj j₂ hist₂) = cs₂.map Peer.chunk ++ [Peer.fin])
+    (hf₁ : follows cfg fuel₁ .head none {} (proj j₁ hist₁) = true)
+    (hf₂ : follows cfg fuel₂ .head none {} (proj j₂ hist₂) = true)
+    (hl₁ : (proj j₁ hist₁).getLast? = some (.call (.body fuel₁)))
+    (hl₂ : (proj j₂ hist₂).getLast? = some (.call (.body fuel₂)))
+    (hne₁ : ∀ b ∈ cs₁, b ≠ []) (hne₂ : ∀ b ∈ cs₂, b ≠ [])
+    (hmsg : H3.FS.run H3.FS.frameDec (.hdr []) cs₁.flatten = (.hdr [], msgToks h ds tr))
+    (hlen : ∀ d ∈ ds, d.length < H3.FS.USIZE_MAX)
+    (hh : cfg.hdr.head h = .ok) (hT : ∀ t, tr = some t → cfg.hdr.trailer t = .ok)
+    (hfuel₁ : (msgToks h ds tr).length < fuel₁) (hfuel₂ : (msgToks h ds tr).length < fuel₂) :
+    let g₁ := digest (obsOf j₁ (run cfg {} hist₁).2)
+    let g₂ := digest (obsOf j₂ (run cfg {} hist₂).2)
+    g₁.heads = g₂.heads ∧ bodyBytes g₁.body = bodyBytes g₂.body ∧ g₁.trailers = g₂.trailers := by
+  intro g₁ g₂
+  obtain ⟨ps₁, a1, a2, a3, a4, _⟩ := C07_healthy_stream_delivers_polled cfg hist₁ hs₁ j₁ cs₁ fuel₁ h ds tr hp₁ hf₁ hl₁
+    hne₁ hmsg hlen hh hT hfuel₁
+  obtain ⟨ps₂, b1, b2, b3, b4, _⟩ := C07_healthy_stream_delivers_polled cfg hist₂ hs₂ j₂ cs₂ fuel₂ h ds tr hp₂ hf₂ hl₂
+    hne₂ (by rw [hbytes]; exact hmsg) hlen hh hT hfuel₂
+  refine ⟨a2.trans b2.symm, ?_, a4.trans b4.symm⟩
+  show bodyBytes (digest _).body = bodyBytes (digest _).body
+  rw [a3, b3, bodyBytes_data_append, bodyBytes_data_append, a1, b1]
+
+/-- **Polled again after every `Pending` = everything delivered first.**  Stream `j₁` of `hist₁`:
+    deliveries and polls of the documented pattern interleaved in ANY way (as in
+    `C07_healthy_stream_delivers_polled`).  Stream `j₂` of `hist₂`: the same bytes (cut the same way or
+    another), all delivered before the head call and the body task are polled once each (the schedule
+    of `C07_healthy_stream_delivers`; that it follows the pattern is `follows_delivered_first`: with
+    FIN there the head call answers at once).  The two applications are given the same head, the same
+    body bytes, the same trailers. -/
+theorem C07_healthy_stream_polled_as_delivered_first (cfg : Cfg) (hist₁ hist₂ : List HEv)
+    (hs₁ : StreamScoped cfg hist₁) (hs₂ : StreamScoped cfg hist₂) (j₁ j₂ : Nat)
+    (cs₁ cs₂ : List ReqRecv.Bytes) (fuel₁ fuel₂ : Nat) (h : ReqRecv.Bytes) (ds : List ReqRecv.Bytes) (tr : Option ReqRecv.Bytes)
+    (hbytes : cs₂.flatten = cs₁.flatten)
+    (hp₁ : peersOf (proj j₁ hist₁) = cs₁.map Peer.chunk ++ [Peer.fin])
+    (hf₁ : follows cfg fuel₁ .head none {} (proj j₁ hist₁) = true)
+    (hl₁ : (proj j₁ hist₁).getLast? = some (.call (.body fuel₁)))
+    (hj₂ : proj j₂ hist₂ =
+      (cs₂.map Peer.chunk ++ [Peer.fin]).map StreamEv.peer ++ [.call .head, .call (.body fuel₂)])
+    (hne₁ : ∀ b ∈ cs₁, b ≠ []) (hne₂ : ∀ b ∈ cs₂, b ≠ [])
+    (hmsg : H3.FS.run H3.FS.frameDec (.hdr []) cs₁.flatten = (.hdr [], msgToks h ds tr))
+    (hlen : ∀ d ∈ ds, d.length < H3.FS.USIZE_MAX)
+    (hh : cfg.hdr.head h = .ok) (hT : ∀ t, tr = some t → cfg.hdr.trailer t = .ok)
+    (hfuel₁ : (msgToks h ds tr).length < fuel₁) (hfuel₂ : (msgToks h ds tr).length < fuel₂) :
+    let g₁ := digest (obsOf j₁ (run cfg {} hist₁).2)
+    let g₂ := digest (obsOf j₂ (run cfg {} hist₂).2)
+    g₁.heads = g₂.heads ∧ bodyBytes g₁.body = bodyBytes g₂.body ∧ g₁.trailers = g₂.trailers := by
+  have hw₂ : Wire cs₂.flatten (msgToks h ds tr) := by
+    rw [hbytes]; exact ⟨hmsg, noRaw_of_msgToks _ _ h ds tr hmsg hlen⟩
+  have hcalls : [StreamEv.call Call.head, StreamEv.call (Call.body fuel₂)] = [Call.head, Call.body fuel₂].map StreamEv.call :=
+    rfl
+  exact C07_healthy_stream_schedule_irrelevant cfg hist₁ hist₂ hs₁ hs₂ j₁ j₂ cs₁ cs₂ fuel₁ fuel₂ h ds tr hbytes hp₁
+    (by rw [hj₂, hcalls]; exact peersOf_peers_calls _ _) hf₁
+    (by rw [hj₂]; exact follows_delivered_first hw₂ cfg hh fuel₂ cs₂ hne₂ rfl) hl₁
+    (by rw [hj₂]; simp) hne₁ hne₂ hmsg hlen hh hT hfuel₁ hfuel₂
 
 end Healthy
 
@@ -658,6 +916,176 @@ example : ∃ rs : List Res,
     (by decide +kernel) [] [.data 0 [], .data 2 [[0xc1], [0xc2]], .unknown 0x21 []] [] [0xaa, 0xbb] none
     (by simp) (by decide) (by simp) rfl (by simp [toksS, TokWF, HdrOk, Hdr.base, srv, hdr₃, HClass.base])
     (by decide) (by decide) (by simp)
+end
+
+/-! `C07_healthy_stream_delivers` applies to stream 0 of the same three-stream history (stream 4 RESET
+    with code 7 inside a DATA payload, stream 8 a malformed head, driver polls in between): every
+    hypothesis is a decidable statement about stream 0's own twelve bytes — no frame-layer interface
+    is assumed.  `cs₀` is ONE cutting of these bytes; the theorem holds for every cutting. -/
+section
+open H3.ReqRecv
+def cs₀ : List ReqRecv.Bytes := [[0x01, 0x02, 0xaa, 0xbb, 0x00, 0x00, 0x00], [0x02, 0xc1], [0xc2, 0x21, 0x00]]
+
+example : H3.FS.run H3.FS.frameDec (.hdr []) cs₀.flatten = (.hdr [], msgToks [0xaa, 0xbb] [[], [0xc1, 0xc2]] none) := by
+  decide +kernel
+
+example : ∃ rs : List Res,
+    obsOf 0 (run srv {} (hist₃.take 20)).2 =
+      List.replicate 4 .quiet ++ [.ans (.res (.head [0xaa, 0xbb])), .body rs (some (.res .noTrailers))] ∧
+    bodyBytes rs = [0xc1, 0xc2] ∧ rs.getLast? = some .end_ ∧
+    ((run srv {} (hist₃.take 20)).1.get 0).rx.env.rst = none ∧
+    (run srv {} (hist₃.take 20)).1.cell = none ∧ (run srv {} (hist₃.take 20)).1.closed = [] :=
+  C07_healthy_stream_delivers srv (hist₃.take 20) (by decide +kernel) 0 cs₀ 20 [0xaa, 0xbb] [[], [0xc1, 0xc2]] none
+    (by decide +kernel) (by decide) (by decide +kernel) (by decide)
+    (by
+      intro b hb
+      rcases hb with rfl | hb
+      · exact ⟨by decide, by decide⟩
+      · cases hb)
+    (by decide)
+
+/-- the same bytes cut per byte on stream 0, with trailers `[0xab]` appended, neighbours as before -/
+def hist₄ : List HEv :=
+  [ chunk 4 [0x01, 0x02, 0xaa, 0xbb, 0x00, 0x05, 0x32], chunk 0 [0x01], chunk 8 [0x01, 0x01, 0xee], chunk 0 [0x02],
+    on 4 (.call .head), chunk 0 [0xaa], on 8 (.call .head), chunk 0 [0xbb], .drive, on 4 (.peer (.reset 7)),
+    chunk 0 [0x00], chunk 0 [0x02], on 4 (.call (.body 9)), chunk 0 [0xc1], chunk 0 [0xc2], chunk 0 [0x01], chunk 0 [0x01],
+    chunk 0 [0xab], on 0 (.peer .fin), .drive, on 0 (.call .head), on 8 (.call .data), on 0 (.call (.body 40)) ]
+
+example : ∃ rs : List Res,
+    obsOf 0 (run srv {} hist₄).2 =
+      List.replicate 12 .quiet ++ [.ans (.res (.head [0xaa, 0xbb])), .body rs (some (.res (.trailers [0xab])))] ∧
+    bodyBytes rs = [0xc1, 0xc2] ∧ rs.getLast? = some .end_ ∧
+    ((run srv {} hist₄).1.get 0).rx.env.rst = none ∧
+    (run srv {} hist₄).1.cell = none ∧ (run srv {} hist₄).1.closed = [] :=
+  C07_healthy_stream_delivers srv hist₄ (by decide +kernel) 0
+    [[0x01], [0x02], [0xaa], [0xbb], [0x00], [0x02], [0xc1], [0xc2], [0x01], [0x01], [0xab]] 40 [0xaa, 0xbb]
+    [[0xc1, 0xc2]] (some [0xab])
+    (by decide +kernel) (by decide) (by decide +kernel) (by decide)
+    (by
+      intro b hb
+      rcases hb with rfl | hb
+      · exact ⟨by decide, by decide⟩
+      · simp only [Option.some.injEq] at hb
+        subst hb
+        exact ⟨by decide, by decide⟩)
+    (by decide)
+example : obsOf 4 (run srv {} hist₄).2 =
+    [.quiet, .ans (.res (.head [0xaa, 0xbb])), .quiet, .body [.errReset 7] none] := by decide +kernel
+example : obsOf 8 (run srv {} hist₄).2 = [.quiet, .ans (.res (.errStream 270)), .noHandle] := by decide +kernel
+
+/-! `C07_healthy_stream_delivers_polled`: stream 0's task is polled BETWEEN its deliveries — the head
+    call answers `Pending` on a cut frame header, the body task answers `Pending` three times (on a
+    cut DATA header, inside a DATA payload, at the grease frame waiting for FIN) — while stream 4 is
+    reset inside a DATA payload and stream 8 carries a malformed head. -/
+def hist₅ : List HEv :=
+  [ chunk 0 [0x01],
+    on 0 (.call .head),
+    chunk 4 [0x01, 0x02, 0xaa, 0xbb, 0x00, 0x05, 0x32],
+    chunk 8 [0x01, 0x01],
+    chunk 0 [0x02, 0xaa, 0xbb, 0x00, 0x00, 0x00],
+    on 4 (.call .head),
+    on 0 (.call .head),
+    .drive,
+    on 0 (.call (.body 20)),
+    chunk 0 [0x02, 0xc1],
+    on 8 (.call .head),
+    on 0 (.call (.body 20)),
+    on 4 (.peer (.reset 7)),
+    chunk 0 [0xc2, 0x21, 0x00],
+    on 0 (.call (.body 20)),
+    chunk 8 [0xee],
+    on 8 (.peer .fin),
+    on 8 (.call .head),
+    on 4 (.call (.body 20)),
+    on 0 (.peer .fin),
+    .drive,
+    on 0 (.call (.body 20)) ]
+
+def cs₅ : List ReqRecv.Bytes := [[0x01], [0x02, 0xaa, 0xbb, 0x00, 0x00, 0x00], [0x02, 0xc1], [0xc2, 0x21, 0x00]]
+
+-- what stream 0's application sees, `Pending` answers included
+example : obsOf 0 (run srv {} hist₅).2 =
+    [.quiet, .ans (.res .pending), .quiet, .ans (.res (.head [0xaa, 0xbb])), .body [.pending] none, .quiet,
+     .body [.data [0xc1], .pending] none, .quiet, .body [.data [0xc2], .pending] none, .quiet,
+     .body [.end_] (some (.res .noTrailers))] := by decide +kernel
+example : follows srv 20 .head none {} (proj 0 hist₅) = true := by decide +kernel
+example : obsOf 4 (run srv {} hist₅).2 =
+    [.quiet, .ans (.res (.head [0xaa, 0xbb])), .quiet, .body [.errReset 7] none] := by decide +kernel
+example : obsOf 8 (run srv {} hist₅).2 = [.quiet, .ans (.res .pending), .quiet, .quiet, .ans (.res (.errStream 270))] := by
+  decide +kernel
+
+example : ∃ ps : List ReqRecv.Bytes, ps.flatten = [0xc1, 0xc2] ∧
+    (digest (obsOf 0 (run srv {} hist₅).2)).heads = [.res (.head [0xaa, 0xbb])] ∧
+    (digest (obsOf 0 (run srv {} hist₅).2)).body = ps.map .data ++ [.end_] ∧
+    (digest (obsOf 0 (run srv {} hist₅).2)).trailers = [.res .noTrailers] ∧
+    ((run srv {} hist₅).1.get 0).rx.env = {} ∧
+    (run srv {} hist₅).1.cell = none ∧ (run srv {} hist₅).1.closed = [] :=
+  C07_healthy_stream_delivers_polled srv hist₅ (by decide +kernel) 0 cs₅ 20 [0xaa, 0xbb] [[], [0xc1, 0xc2]] none
+    (by decide +kernel) (by decide +kernel) (by decide +kernel) (by decide) (by decide +kernel) (by decide)
+    (by decide) (by intro t ht; cases ht) (by decide)
+
+-- ... and after every prefix of that history (FIN not there yet, the task in the middle of the body)
+example : ∀ n ∈ List.range 23, follows srv 20 .head none {} (proj 0 (hist₅.take n)) = true ∧
+    StreamScoped srv (hist₅.take n) := by decide +kernel
+example : (digest (obsOf 0 (run srv {} (hist₅.take 15)).2)).body = [.data [0xc1], .data [0xc2]] := by decide +kernel
+example :
+    let g := digest (obsOf 0 (run srv {} (hist₅.take 15)).2)
+    (∃ ps : List ReqRecv.Bytes, ps.flatten <+: [0xc1, 0xc2] ∧
+      ((g.heads = [] ∧ g.body = [] ∧ g.trailers = []) ∨
+       (g.heads = [.res (.head [0xaa, 0xbb])] ∧ g.body = ps.map .data ∧ g.trailers = []) ∨
+       (g.heads = [.res (.head [0xaa, 0xbb])] ∧ g.body = ps.map .data ++ [.end_] ∧ ps.flatten = [0xc1, 0xc2] ∧
+          (g.trailers = [] ∨ g.trailers = [.res .noTrailers])))) ∧
+    ((run srv {} (hist₅.take 15)).1.get 0).rx.env = {} ∧
+    (run srv {} (hist₅.take 15)).1.cell = none ∧ (run srv {} (hist₅.take 15)).1.closed = [] :=
+  C07_healthy_stream_prefix_polled srv (hist₅.take 15) (by decide +kernel) 0 cs₅ 20 [0xaa, 0xbb] [[], [0xc1, 0xc2]] none
+    (by decide +kernel) (by decide +kernel) (by decide) (by decide +kernel) (by decide)
+    (by decide) (by intro t ht; cases ht) (by decide)
+
+-- the polled run of `hist₅` and the deliveries-first run of `hist₃` (another cutting): the same head, body, trailers
+example :
+    (digest (obsOf 0 (run srv {} (hist₃.take 20)).2)).heads = (digest (obsOf 0 (run srv {} hist₅).2)).heads ∧
+    bodyBytes (digest (obsOf 0 (run srv {} (hist₃.take 20)).2)).body = bodyBytes (digest (obsOf 0 (run srv {} hist₅).2)).body ∧
+    (digest (obsOf 0 (run srv {} (hist₃.take 20)).2)).trailers = (digest (obsOf 0 (run srv {} hist₅).2)).trailers :=
+  C07_healthy_stream_schedule_irrelevant srv (hist₃.take 20) hist₅ (by decide +kernel) (by decide +kernel) 0 0 cs₀ cs₅ 20 20
+    [0xaa, 0xbb] [[], [0xc1, 0xc2]] none (by decide) (by decide +kernel) (by decide +kernel) (by decide +kernel)
+    (by decide +kernel) (by decide +kernel) (by decide +kernel) (by decide) (by decide) (by decide +kernel) (by decide)
+    (by decide) (by intro t ht; cases ht) (by decide) (by decide)
+
+example :
+    (digest (obsOf 0 (run srv {} hist₅).2)).heads = (digest (obsOf 0 (run srv {} (hist₃.take 20)).2)).heads ∧
+    bodyBytes (digest (obsOf 0 (run srv {} hist₅).2)).body = bodyBytes (digest (obsOf 0 (run srv {} (hist₃.take 20)).2)).body ∧
+    (digest (obsOf 0 (run srv {} hist₅).2)).trailers = (digest (obsOf 0 (run srv {} (hist₃.take 20)).2)).trailers :=
+  C07_healthy_stream_polled_as_delivered_first srv hist₅ (hist₃.take 20) (by decide +kernel) (by decide +kernel) 0 0 cs₅ cs₀ 20 20
+    [0xaa, 0xbb] [[], [0xc1, 0xc2]] none (by decide) (by decide +kernel) (by decide +kernel) (by decide +kernel)
+    (by decide +kernel) (by decide) (by decide) (by decide +kernel) (by decide)
+    (by decide) (by intro t ht; cases ht) (by decide) (by decide)
+
+-- trailers, per-byte cutting, a poll after every byte; the block is remembered while `recv_trailers` waits for FIN
+def hist₆ : List HEv :=
+  ([0x01, 0x02, 0xaa, 0xbb].flatMap fun b => [chunk 0 [b], on 0 (.call .head)]) ++
+  [ chunk 4 [0x01, 0x01, 0xee], on 4 (.call .head) ] ++
+  ([0x00, 0x02, 0xc1, 0xc2, 0x01, 0x01, 0xab].flatMap fun b => [chunk 0 [b], on 0 (.call (.body 9)), .drive]) ++
+  [ on 0 (.peer .fin), on 0 (.call (.body 9)) ]
+
+example : obsOf 0 (run cli {} hist₆).2 =
+    [.quiet, .ans (.res .pending), .quiet, .ans (.res .pending), .quiet, .ans (.res .pending), .quiet,
+     .ans (.res (.head [0xaa, 0xbb])),
+     .quiet, .body [.pending] none, .quiet, .body [.pending] none, .quiet, .body [.data [0xc1], .pending] none,
+     .quiet, .body [.data [0xc2], .pending] none, .quiet, .body [.pending] none, .quiet, .body [.pending] none,
+     .quiet, .body [.end_] (some (.res .pending)), .quiet, .body [] (some (.res (.trailers [0xab])))] := by
+  decide +kernel
+
+example : ∃ ps : List ReqRecv.Bytes, ps.flatten = [0xc1, 0xc2] ∧
+    (digest (obsOf 0 (run cli {} hist₆).2)).heads = [.res (.head [0xaa, 0xbb])] ∧
+    (digest (obsOf 0 (run cli {} hist₆).2)).body = ps.map .data ++ [.end_] ∧
+    (digest (obsOf 0 (run cli {} hist₆).2)).trailers = [.res (.trailers [0xab])] ∧
+    ((run cli {} hist₆).1.get 0).rx.env = {} ∧
+    (run cli {} hist₆).1.cell = none ∧ (run cli {} hist₆).1.closed = [] :=
+  C07_healthy_stream_delivers_polled cli hist₆ (by decide +kernel) 0
+    [[0x01], [0x02], [0xaa], [0xbb], [0x00], [0x02], [0xc1], [0xc2], [0x01], [0x01], [0xab]] 9 [0xaa, 0xbb]
+    [[0xc1, 0xc2]] (some [0xab])
+    (by decide +kernel) (by decide +kernel) (by decide +kernel) (by decide) (by decide +kernel) (by decide)
+    (by decide) (by intro t ht; cases ht; decide) (by decide)
 end
 
 end H3.Props.C07
